@@ -6,3 +6,4 @@ import MicroHttp.Props.Tables
 #print axioms MicroHttp.C11.rejected_request_dropped
 #print axioms MicroHttp.C11.server_yields_nothing_on_error
 #print axioms MicroHttp.Tables.no_shared_state
+#print axioms MicroHttp.Tables.no_interior_mutability
